@@ -153,7 +153,7 @@ def select_consts(ast, crate, mods=None):
     return out
 
 
-def area_nf(ast, crate, mods, exclude_names=(), skip_types=(), known_keys=None):
+def area_nf(ast, crate, mods, exclude_names=(), skip_types=(), known_keys=None, only_names=()):
     """-> {key: {'kind': 'paths'|'tree', ...}} JSON-able.
     known_keys: function keys of the reviewed reference.  A private, non-trait function of the area that is not among
     them and whose name is unique in the crate (a helper extracted by a refactoring) is inlined into its callers (free
@@ -183,7 +183,9 @@ def area_nf(ast, crate, mods, exclude_names=(), skip_types=(), known_keys=None):
         except Exception as e:  # noqa
             res[key] = {"kind": "tree", "text": "unrenderable: %s" % e, "why": "constant"}
     for it in select(ast, crate, mods, exclude_names):
-        if skip_types and (it.get("self_ty") or "").replace(" ", "").split("<")[0] in skip_types:
+        if only_names and it["name"] not in only_names:
+            continue
+        if skip_types and not only_names and (it.get("self_ty") or "").replace(" ", "").split("<")[0] in skip_types:
             continue
         key = fn_key(it)
         if it["name"] in new_private and new_private[it["name"]] is it:
